@@ -282,6 +282,12 @@ def check_with(case, driver):
         if case["output"]:
             os.makedirs(os.path.dirname(outfile))
             argv += ["-o", outfile]
+        if case.get("alt_spelling"):
+            # every option through its other documented spelling (long form / alias)
+            r.label("alternative-option-spellings")
+            alt = {"-m": "--model", "-l": "--list", "-i": "--input-format", "-o": "--output", "-f": "--framework", "-s": "--structure",
+                   "--disable-unicode-conversion": "--no-unidecode", "--dict-keys-regex": "--dkr", "--dict-keys-fields": "--dkf"}
+            argv = [alt.get(a, a) for a in argv]
         # expected
         try:
             exp = expected_texts(models, opts)
@@ -532,7 +538,8 @@ def cases(draw, tier="quick", formats=("json", "json", "json", "yaml", "ini")):
     return {"specs": specs, "opts": o, "format": fmt, "output": draw(st.sampled_from([False, False, True])),
             "c_locale": draw(st.booleans()), "run_twice": draw(st.sampled_from([False, False, True])),
             "prior_failed_parse": draw(st.sampled_from([False, False, False, True])),
-            "prior_ok_command": draw(st.sampled_from([False, False, False, True]))}
+            "prior_ok_command": draw(st.sampled_from([False, False, False, True])),
+            "alt_spelling": draw(st.sampled_from([False, False, True]))}
 
 
 def valid(case):
